@@ -12,6 +12,7 @@ pub fn run(args: &vcore::Args) {
         "client" => GenConfig::client_graph(),
         "advanced" => GenConfig::advanced(),
         "risky" => GenConfig::everything().risky(),
+        "dense" => GenConfig::advanced().dense_refs(),
         _ => GenConfig::everything(),
     };
     let tapes = vcore::generate_values(args.seed, n, &tape_strategy(400));
@@ -24,6 +25,14 @@ pub fn run(args: &vcore::Args) {
             let dir = compile::fresh_dir("probe", i as u64);
             compile::write_project(&dir, &r);
             let o = compile::compile_inproc(&dir);
+            if std::env::var("PROBE_TWICE").is_ok() {
+                let o2 = compile::compile_inproc(&dir);
+                if let (Outcome::Artifacts(a), Outcome::Artifacts(b)) = (&o, &o2) {
+                    if a != b {
+                        println!("  DIFFERS on second in-process compilation: case index {i}");
+                    }
+                }
+            }
             if !o.is_ok() && std::env::var("PROBE_KEEP").is_ok() {
                 // keep
             } else {
@@ -40,6 +49,21 @@ pub fn run(args: &vcore::Args) {
             Outcome::Artifacts(m) => {
                 ok += 1;
                 artifacts += m.len();
+                // generator health: how often does a reader use two or more refetch queries?
+                let mut best = 0;
+                for (k, v) in m {
+                    if !k.ends_with("resolver_reader.ts") {
+                        continue;
+                    }
+                    for part in v.split("usedRefetchQueries: [").skip(1) {
+                        let inner = part.split(']').next().unwrap_or("");
+                        best = best.max(inner.split(',').filter(|s| !s.trim().is_empty()).count());
+                    }
+                }
+                if best >= 2 {
+                    let e = hist.entry(format!("STAT reader with >=2 usedRefetchQueries (max {})", best.min(4))).or_insert((0, *i));
+                    e.0 += 1;
+                }
             }
             Outcome::Diagnostics(d) => {
                 for m in d {
@@ -58,6 +82,46 @@ pub fn run(args: &vcore::Args) {
             }
         }
     }
+    // model-level generator health: a client field selecting one pointer twice in one selection set
+    fn twice(sels: &[gen_project::model::Sel], with_args: bool) -> bool {
+        use gen_project::model::Target;
+        for (i, a) in sels.iter().enumerate() {
+            for b in &sels[i + 1..] {
+                if let (Target::ClientPointer(x), Target::ClientPointer(y)) = (&a.target, &b.target) {
+                    if x == y && (!with_args || format!("{:?}", a.args) != format!("{:?}", b.args)) {
+                        return true;
+                    }
+                }
+            }
+            if let Some(ch) = &a.children {
+                if twice(ch, with_args) {
+                    return true;
+                }
+            }
+        }
+        false
+    }
+    let (mut t1, mut t2, mut t3) = (0, 0, 0);
+    for (i, tape) in tapes.iter().enumerate() {
+        let p = build_project(tape.clone(), &cfg);
+        let fs: Vec<usize> = (0..p.decls.len()).filter(|&k| !p.decls[k].is_pointer() && twice(&p.decls[k].selections, false)).collect();
+        let fs2: Vec<usize> = (0..p.decls.len()).filter(|&k| !p.decls[k].is_pointer() && twice(&p.decls[k].selections, true)).collect();
+        t1 += !fs.is_empty() as usize;
+        t2 += !fs2.is_empty() as usize;
+        fn selects(sels: &[gen_project::model::Sel], k: usize) -> bool {
+            sels.iter().any(|s| {
+                matches!(&s.target, gen_project::model::Target::ClientField(x) if *x == k && matches!(s.directive, gen_project::model::SelDirective::None))
+                    || s.children.as_ref().map(|c| selects(c, k)).unwrap_or(false)
+            })
+        }
+        if results[i].1.is_ok() && fs2.iter().any(|&k| p.decls.iter().any(|d| selects(&d.selections, k))) {
+            t3 += 1;
+            if t3 <= 3 {
+                println!("  example accepted case index {i}");
+            }
+        }
+    }
+    println!("STAT client field selects one pointer twice: {t1}; with different arguments: {t2}; and accepted: {t3}");
     println!("tier={tier} n={n} accepted={ok} avg_artifacts={:.1}", artifacts as f64 / ok.max(1) as f64);
     for (k, (c, first)) in &hist {
         println!("{c:5}  first={first:4}  {k}");
